@@ -3,6 +3,7 @@ An independent reference codec/peer (harness/refcodec.py, written from the forma
 byte-for-byte with what the real implementation emits, and everything it emits — in every form the format
 admits — must be accepted by the real implementation and mean the same."""
 import struct, zlib
+import os
 from harness import common as C
 from harness import refcodec as R
 from harness.memstream import MemStream
@@ -33,7 +34,8 @@ META = {
                "netref.class_factory", "handlers.lib.get_id_pack", "calls.*"],
     "models": ["brine"],
     "model_files": ["Brine"],
-    "assumptions": ["the interpreter's limit on int <-> text conversion (sys.get_int_max_str_digits) is not part of the format: integers beyond it are known finding F66", "harness/refcodec.py and coq/model/Published.v are the reading of 'the published 5.x format'"],
+    "assumptions": ["the interpreter's limit on int <-> text conversion (sys.get_int_max_str_digits) is not part of the format: integers beyond it are known finding F66", "harness/refcodec.py and coq/model/Published.v are the reading of 'the published 5.x format'",
+                    "the theorems about decoding (4, 4b: admitted encodings at every nesting level) hold at any depth; the real decoder is bounded by the interpreter's recursion limit (C04's stated exclusion)"],
 }
 
 from rpyc.core import brine
@@ -294,6 +296,37 @@ PUBLISHED_NUMBERS = dict(MSG_REQUEST=1, MSG_REPLY=2, MSG_EXCEPTION=3, LABEL_VALU
                          EXC_STOP_ITERATION=1, **{"HANDLE_" + k: v for k, v in R.H.items()})
 
 
+# what the published 5.0.1 puts into / expects from the CTXEXIT request: the exception object itself (boxed like any argument: a
+# reference to the caller's exception), raised as it is on the owner's side
+PUBLISHED_CTXEXIT = {
+    ("netref", "BaseNetref", "__exit__"): "def __exit__(self, exc, typ, tb):\n    return syncreq(self, consts.HANDLE_CTXEXIT, exc)",
+    ("protocol", "Connection", "_handle_ctxexit"): ("def _handle_ctxexit(self, obj, exc):\n    if exc:\n        try:\n            raise exc\n        except Exception:\n"
+                                                    "            exc, typ, tb = sys.exc_info()\n    else:\n        typ = tb = None\n    return self._handle_getattr(obj, '__exit__')(exc, typ, tb)"),
+}
+
+
+def ctxexit_layout_phase(ctx):
+    """the argument of the CTXEXIT request: published = the exception by reference; a tree that sends an exception RECORD by value
+    (the repair of F14: the target's __exit__ is told the exception that ended the block) does not interoperate with a published peer
+    on this one request - in either direction __exit__ is told a TypeError instead (as it was between two published peers)"""
+    import ast
+    from tools.pygen.core import find_class, find_func, func_shape
+    diffs = []
+    for (mod, cls, fn), want in PUBLISHED_CTXEXIT.items():
+        try:
+            tree = ast.parse(open(os.path.join(C.REPO, "rpyc", "core", mod + ".py")).read())
+            got = func_shape(find_func(find_class(tree, cls), fn))
+        except Exception as e:
+            got = "<unreadable: %r>" % (e,)
+        if got != want:
+            diffs.append({"function": "%s.%s.%s" % (mod, cls, fn), "current": got[:400]})
+    ctx.case(("ctxexit-layout",), nontrivial=True, sample={"ctxexit_functions_differing_from_published": [d["function"] for d in diffs]})
+    ctx.count("ctxexit-layout-compared")
+    if diffs:
+        ctx.violation("ctxexit-argument-layout-differs-from-published", {"functions": diffs}, observed=[d["function"] for d in diffs], expected="the published bodies",
+                      what="the CTXEXIT request carries an exception record by value (vinegar) where the published 5.0.1 sends the exception by reference: the two do not understand each other on this request")
+
+
 def numbers_phase(ctx):
     from rpyc.core import consts
     for k, v in PUBLISHED_NUMBERS.items():
@@ -342,6 +375,7 @@ def overlimit_int_phase(ctx):
 
 def run(ctx):
     numbers_phase(ctx)
+    ctxexit_layout_phase(ctx)
     overlimit_int_phase(ctx)
     ctx.coverage_extra["rule"] = ("values from C04's generator (serializable only) compared with the reference encoder byte-for-byte and re-encoded in l1/l4 forms; "
                                   "frames for payload sizes around threshold/chunk with both compression settings on both sides; scripted request/response conversations "
